@@ -8,6 +8,9 @@ checks = {
  "C20": ("model_checking", "exhaustive product of issue parameters x issue/validation instants (virtual clock via source instrumentation) x byte- and caveat-level alterations, executed on the real tokens package against a reference validity predicate",
          "All histories (issue instant, validation instant) over the boundary alphabet and all single alterations of each issued token are executed on the real code under an owned clock; the oracle is the four-clause reference predicate.",
          "trusts HMAC/macaroon library; macaroon location field and trailing bytes ignored by the decoder are unauthenticated by construction and not counted as alterations", "4/C20"),
+ "C17": ("model_checking", "exhaustive enumeration of all strings up to a length bound over the identifier alphabets through every parser, all byte strings for base64, every size-limit shape (singles and pairs) per version, and the full version table, executed on the real code against grammar recognisers written from the specification",
+         "Every string of the alphabet up to the bound is executed through every parser and compared with an independent recogniser; the version table is compared row by row through getters and behavioural probes. Right level: the identifier languages are regular and tiny, so exhaustive enumeration decides them within the bound.",
+         "net/netip for IPv6 validity; limits probed at the boundary shapes listed in the evidence rule, not at every length", "4/C17"),
 }
 pending = {}
 props = [json.loads(l) for l in open('/verif/properties.jsonl')]
